@@ -601,10 +601,14 @@ impl Gen {
             20 if len < 600 && o.cap - o.len.min(o.cap) <= 300 && self.probes_left > 0 => { self.probes_left -= 1; (0, Op::FillProbe { start: 1_000_000 + self.next_fresh * 16 + self.rng.below(1000) }) }
             20 => (0, Op::Dump),
             _ => {
-                let n = 1 + self.rng.below(12);
-                let mut items = vec![];
-                for _ in 0..n {
-                    let k = if self.rng.chance(1, 3) { self.some_key(w, 0) } else { self.fresh() };
+                let long = self.rng.chance(1, 4);
+                let n = 1 + self.rng.below(if long { 40 } else { 12 });
+                let mut items: Vec<(u64, u64)> = vec![];
+                // half of the calls bring only new keys (with repeats among themselves): those are replayed on the model
+                // whatever happens inside; the others also overwrite keys that are already there
+                let only_new = self.rng.chance(1, 2);
+                for i in 0..n {
+                    let k = if only_new && i > 0 && self.rng.chance(1, 6) { items[self.rng.below(i as u64) as usize].0 } else if !only_new && self.rng.chance(1, 3) { self.some_key(w, 0) } else { self.fresh() };
                     items.push((k, self.rng.below(1000)));
                 }
                 (0, Op::Extend { items })
